@@ -153,6 +153,29 @@ theorem assert2Y_spec (st : St) (reexec isDef : Bool) (x ok : Name) (r : RExp) (
     · simp [h1, h2]
     · simp [h1, h2, h3]
 
+/-- `l = f(&p)` with a named result: since commit 1b5ab85 of the repository the result is a fresh variable of the callee,
+    copied to the destination after the call -/
+theorem callNamedY_spec (st : St) (isDef : Bool) (l p sel1 : LExp) (k : Int) (sel2 sel3 : LExp) (zero : Val) :
+    callNamedY share st isDef l p sel1 k sel2 sel3 zero = Spec.callNamed st isDef l p sel1 k sel2 sel3 zero := by
+  unfold callNamedY Spec.callNamed
+  simp only [share_callResultsFresh, Bool.not_true, Bool.false_and, Bool.false_eq_true, if_false, bind, Except.bind]
+  cases resolve st p with
+  | error e => rfl
+  | ok pl =>
+    simp only
+    cases runNamedBody (st.alloc zero).2 ⟨(st.alloc zero).1, []⟩ pl sel1 k sel2 sel3 with
+    | error e => rfl
+    | ok q => simp [storeResult_spec]
+
+/-- `l1, l2 = sw()` with `return b, a`: since commit 8544122 of the repository the return statement is two-phase -/
+theorem retSwapY_spec (st : St) (isDef : Bool) (l1 l2 : LExp) (v1 v2 : Val) :
+    retSwapY share st isDef l1 l2 v1 v2 = Spec.retSwap st isDef l1 l2 v1 v2 := by
+  unfold retSwapY Spec.retSwap
+  simp only [share_returnTwoPhase, if_true]
+  cases isDef with
+  | false => rfl
+  | true => cases l1 <;> cases l2 <;> rfl
+
 /-- one statement: the mechanism computes the specification's state — every statement of the language, first or
     repeated execution -/
 theorem sopY_spec (G : Growth) (st : St) (o : SOp) (reexec : Bool) : sopY share G reexec st o = Spec.sop G st o := by
@@ -172,6 +195,8 @@ theorem sopY_spec (G : Growth) (st : St) (o : SOp) (reexec : Bool) : sopY share 
   | recv isDef l r => exact recvY_spec st isDef l r
   | assert2 isDef x ok r succ zero rdx rdok => exact assert2Y_spec st reexec isDef x ok r succ zero rdx rdok
   | callMut isDef l sel k arg => exact callMutY_spec st isDef l sel k arg
+  | callNamed isDef l p sel1 k sel2 sel3 zero => exact callNamedY_spec st isDef l p sel1 k sel2 sel3 zero
+  | retSwap isDef l1 l2 v1 v2 => exact retSwapY_spec st isDef l1 l2 v1 v2
   | «show» xs => rfl
 
 theorem sopsY_spec (G : Growth) (reexec : Bool) :
